@@ -398,7 +398,7 @@ def h_option_flatten(pattern, deep):
 
 def jobs_for(prop, tier):
     if prop == 'C01':
-        return jobs_c01(tier) + jobs_carry(tier) + jobs_numpy_getitem(tier) + jobs_option_getitem(tier) + jobs_ellipsis(tier)
+        return jobs_c01(tier) + jobs_carry(tier) + jobs_numpy_getitem(tier) + jobs_option_getitem(tier) + jobs_ellipsis(tier) + jobs_missing(tier) + jobs_advanced(tier)
     if prop == 'C05':
         return jobs_c05(tier) + [j for j in jobs_option_below(tier) if j[1][3] in ('num', 'localindex')] + jobs_flatten(tier)
     if prop == 'C09':
@@ -2675,12 +2675,53 @@ def _slice_items(mem, sl):
     return [buf.cells[qb.off + 16 * i][0] for i in range(n)]
 
 
+def _slice_item(nc, i, kind):
+    """real slice item object number i of the given kind -> pointer"""
+    if kind == 'at':
+        return nc.m.record('it%d' % i, {0: (nc.vptr_of('N7awkward7SliceAtE', 'SLC'), 8), 8: (BV(i), 8)}, const=True)
+    if kind == 'range':
+        from .c18 import KNONE
+        return nc.m.record('it%d' % i, {0: (nc.vptr_of('N7awkward10SliceRangeE', 'SLC'), 8), 8: (BV(KNONE), 8), 16: (BV(KNONE), 8), 24: (BV(1), 8)}, const=True)
+    if kind == 'newaxis':
+        return nc.m.record('it%d' % i, {0: (nc.vptr_of('N7awkward12SliceNewAxisE', 'SLC'), 8)}, const=True)
+    if kind in ('array1', 'array2'):
+        fo, sz, al, fields = nc.layout_of('SLC', '_ZNK7awkward12SliceArrayOfIlE4ndimEv')
+        shape = [2] if kind == 'array1' else [2, 2]
+        n = 2 if kind == 'array1' else 4
+        data = nc.m.array('it%d_data' % i, ('i', 64), n, const=True)
+        cells = {0: (nc.vptr_of('N7awkward12SliceArrayOfIlEE', 'SLC'), 8)}
+        nc.index_cells(cells, fo[1], data, BV(0), BV(n))
+        sh = nc.m.array('it%d_shape' % i, ('i', 64), len(shape), const=True, arr=_const_array(shape))
+        stv = nc.m.array('it%d_strides' % i, ('i', 64), len(shape), const=True, arr=_const_array([2, 1][-len(shape):]))
+        for base, arr_ in ((fo[2], sh), (fo[3], stv)):
+            cells[base] = (arr_, 8)
+            cells[base + 8] = (Ptr(arr_.obj, BV(len(shape))), 8)          # array objects are addressed by element index (a z3 term)
+            cells[base + 16] = (Ptr(arr_.obj, BV(len(shape))), 8)
+        cells[fo[4]] = (BV(0, 8), 1)
+        return nc.m.record('it%d' % i, cells, const=True)
+    raise Unsupported('slice item kind ' + kind)
+
+
+def _const_array(vals):
+    arr = z3.K(z3.BitVecSort(64), BV(0))
+    for i, v in enumerate(vals):
+        arr = z3.Store(arr, BV(i), BV(v))
+    return arr
+
+
+ITEM_CLASS = {'at': 'SliceAt', 'range': 'SliceRange', 'newaxis': 'SliceNewAxis', 'array1': 'SliceArrayOf', 'array2': 'SliceArrayOf'}
+
+
 @guard
 def h_ellipsis(k, kind):
-    """Content::getitem_next for an ellipsis / newaxis item with k integer items after it, on a node of any depth: an ellipsis stands for as many
-    full ranges as the structure has dimensions left - it is consumed exactly when the remaining items already account for all dimensions below
-    this one, otherwise one full range is applied here and the ellipsis stays in front of the remaining items; a newaxis item applies the rest
-    of the slice and wraps the answer in a regular dimension of size 1"""
+    """Content::getitem_next for an ellipsis / newaxis item with further items after it (k integers, or a tuple of item kinds: at, range, array1,
+    array2 = a two-dimensional integer array, newaxis), on a node of any depth: an ellipsis stands for as many full ranges as the structure has
+    dimensions left - it is consumed exactly when the remaining items already account for all dimensions below this one (an integer, a range and
+    an index array of any dimension each address one dimension, a newaxis none), otherwise one full range is applied here and the ellipsis stays
+    in front of the remaining items; a newaxis item applies the rest of the slice and wraps the answer in a regular dimension of size 1"""
+    kinds = ('at',) * k if isinstance(k, int) else tuple(k)
+    k = len(kinds)
+    D = sum(1 for x in kinds if x != 'newaxis')        # dimensions the remaining items address
     nc = NodeCtx(['CNT', 'SLC', 'RA', 'IDX', 'UTL', 'KD', 'IDS'], [], unwind=max(12, 2 * k + 12))
     dmin, dmax = nc.m.bv('mindepth'), nc.m.bv('maxdepth')
     nc.m.assume(dmin >= 1, dmin <= dmax, dmax <= 50, nc.lencontent <= 2 ** 20)
@@ -2702,42 +2743,50 @@ def h_ellipsis(k, kind):
         nc._ret(st, sret, nc.fresh_content(eng, st, BV(3), z3.Lambda([kk], kk + 500), derived='next'))
         return None
     nc.m.eng.stubs['vf$slot%d' % nc.slot('12getitem_nextERKSt10shared_ptrINS_9SliceItemEERKNS_5SliceERKNS_7IndexOfIlEE')] = s_getitem_next
-    ats = [nc.m.record('at%d' % i, {0: (nc.vptr_of('N7awkward7SliceAtE', 'SLC'), 8), 8: (BV(i), 8)}, const=True) for i in range(k)]
-    tail = _slice_object(nc, 'tail', ats)
+    its = [_slice_item(nc, i, kd) for i, kd in enumerate(kinds)]
+    tail = _slice_object(nc, 'tail', its)
     cells = {}
     nc.index_cells(cells, 0, NULL, BV(0), BV(0))
     cells[48] = (BV(1, 8), 1)
     adv = nc.m.record('advanced', cells, const=True)
     nc.m.record('ret', {})
+
+    def same_item(p, i):
+        return z3.Or([gg for gg, qq in nodeh.ptr_cases(p) if qq.obj == 'it%d' % i] + [z3.BoolVal(False)])
+    first_cls = ITEM_CLASS[kinds[0]] if k else ''
     if kind == 'ellipsis':
         item = nc.m.record('ellipsis', {0: (nc.vptr_of('N7awkward13SliceEllipsisE', 'SLC'), 8)}, const=True)
         out = nc.m.call('_ZNK7awkward7Content12getitem_nextERKNS_13SliceEllipsisERKNS_5SliceERKNS_7IndexOfIlEE', [Ptr('ret', 0), nc.content0, item, tail, adv])
-        consumed = z3.Or(z3.BoolVal(k == 0), z3.And(dmin - 1 == k, dmax - 1 == k))
-        mixed = z3.And(z3.Not(consumed), z3.Or(dmin - 1 == k, dmax - 1 == k))
+        consumed = z3.Or(z3.BoolVal(k == 0), z3.And(dmin - 1 == D, dmax - 1 == D))
+        mixed = z3.And(z3.Not(consumed), z3.Or(dmin - 1 == D, dmax - 1 == D))
         obls = [('raises exactly for a structure whose branches differ in depth when only one of them is exhausted by the items', z3.simplify(out.raised) != mixed)]
         for ob in seen:
             g = ob['pc']
-            is_first = (len(ob['tail']) == k - 1 or k == 0) and (('SliceAt' in ob['head']) if k else ob['head'] == '')
-            is_kept = 'SliceRange' in ob['head'] and len(ob['tail']) == k + 1 and 'SliceEllipsis' in (ob['tail'][0] if ob['tail'] else '')
+            is_first = len(ob['tail']) == max(k - 1, 0) and ((first_cls in ob['head']) if k else ob['head'] == '')
+            is_kept = 'SliceRange' in ob['head'] and ob['hrange'] is not None and len(ob['tail']) == k + 1 and 'SliceEllipsis' in (ob['tail'][0] if ob['tail'] else '')
             obls.append(('the ellipsis is dropped exactly when the items account for every dimension below', z3.And(g, consumed, z3.BoolVal(not is_first))))
             obls.append(('otherwise a full range is applied here and the ellipsis stays in front of the items', z3.And(g, z3.Not(consumed), z3.BoolVal(not is_kept))))
-            if ob['hrange'] is not None:
+            if is_kept:
                 a_, b_, c_ = ob['hrange']
                 from .c18 import KNONE
-                obls.append(('the range applied here is the full range [None:None:1]', z3.And(g, z3.Or(a_ != KNONE, b_ != KNONE, c_ != 1))))
-            if is_kept:
-                same = [z3.Or([gg for gg, qq in nodeh.ptr_cases(ob['tailptrs'][1 + i]) if qq.obj == 'at%d' % i] + [z3.BoolVal(False)]) for i in range(k)]
-                obls.append(('the remaining items keep their order', z3.And(g, z3.Not(z3.And(same + [z3.BoolVal(True)])))))
+                obls.append(('the range applied here is the full range [None:None:1]', z3.And(g, z3.Not(consumed), z3.Or(a_ != KNONE, b_ != KNONE, c_ != 1))))
+                same = [same_item(ob['tailptrs'][1 + i], i) for i in range(k)]
+                obls.append(('the remaining items keep their order', z3.And(g, z3.Not(consumed), z3.Not(z3.And(same + [z3.BoolVal(True)])))))
+            if is_first and k:
+                same = [same_item(ob['headptr'], 0)] + [same_item(ob['tailptrs'][i - 1], i) for i in range(1, k)]
+                obls.append(('the remaining items are applied in their order', z3.And(g, consumed, z3.Not(z3.And(same)))))
         tw = [('consumed', consumed)] + ([('kept', z3.And(z3.Not(consumed), z3.Not(mixed)))] if k else [])
     else:
         item = nc.m.record('newaxis', {0: (nc.vptr_of('N7awkward12SliceNewAxisE', 'SLC'), 8)}, const=True)
         out = nc.m.call('_ZNK7awkward7Content12getitem_nextERKNS_12SliceNewAxisERKNS_5SliceERKNS_7IndexOfIlEE', [Ptr('ret', 0), nc.content0, item, tail, adv])
         obls = [('newaxis does not raise', out.raised), ('the rest of the slice is applied exactly once', z3.BoolVal(len(seen) != 1))]
         for ob in seen:
-            okh = (('SliceAt' in ob['head']) if k else ob['head'] == '') and len(ob['tail']) == max(k - 1, 0)
+            okh = ((first_cls in ob['head']) if k else ob['head'] == '') and len(ob['tail']) == max(k - 1, 0)
             obls.append(('the rest of the slice is applied unchanged', z3.And(ob['pc'], z3.BoolVal(not okh))))
+            if okh and k:
+                same = [same_item(ob['headptr'], 0)] + [same_item(ob['tailptrs'][i - 1], i) for i in range(1, k)]
+                obls.append(('the remaining items are applied in their order', z3.And(ob['pc'], z3.Not(z3.And(same)))))
         res = decode(nc, out.mem, nc.m.cell('ret', 0))
-        want = [[Elem(BV(500)), Elem(BV(501)), Elem(BV(502))]] if False else None
         if res['cls'] != 'regular':
             obls.append(('the answer is wrapped in a regular dimension', z3.BoolVal(True)))
         else:
@@ -2752,21 +2801,35 @@ def h_ellipsis(k, kind):
         d2 = model.eval(dmax, model_completion=True).as_signed_long() - 1
         if d1 < 1 or d2 > 4:
             return False, 'structure of depth %d..%d is not replayed' % (d1, d2), {}
+        if sum(1 for x in kinds if x.startswith('array')) > 1:
+            return False, 'several index arrays in one slice are not replayed', {}
         side = max(k + 1, 2)
 
         def nest(d):
             n = side ** d
             return 'i64 %d %s ' % (n, ' '.join(map(str, range(n)))) + 'regular %d 0 ' % side * (d - 1)
-        items = ' '.join('at %d' % i for i in range(k))
+        toks, py = [], []
+        for i, kd in enumerate(kinds):
+            if kd == 'at':
+                toks.append('at %d' % i); py.append(i)
+            elif kd == 'range':
+                toks.append('range NONE NONE 1'); py.append(slice(None))
+            elif kd == 'newaxis':
+                toks.append('newaxis'); py.append(None)
+            elif kd == 'array1':
+                toks.append('array 2 1 0'); py.append(np.array([1, 0]))
+            else:
+                toks.append('array2d 2 2 0 1 1 0'); py.append(np.array([[0, 1], [1, 0]]))
+        items = ' '.join(toks)
         if d1 == d2:
             prog = nest(d1) + 'getitem %d %s %s' % (k + 1, kind, items)
             a = np.arange(side ** d1).reshape((side,) * d1)
             try:
-                exp = a[(Ellipsis if kind == 'ellipsis' else None,) + tuple(range(k))].tolist()
+                exp = a[(Ellipsis if kind == 'ellipsis' else None,) + tuple(py)].tolist()
             except IndexError:
                 exp = None
         else:
-            if kind != 'ellipsis' or not (k in (d1, d2)):
+            if kind != 'ellipsis' or not (D in (d1, d2)):
                 return False, 'structures whose branches differ in depth are replayed only where the ellipsis must be refused', {}
             prog = nest(d1) + nest(d2) + 'tuple 2 %d getitem %d %s %s' % (side, k + 1, kind, items)
             exp = None
@@ -2779,12 +2842,14 @@ def h_ellipsis(k, kind):
         if kind_ != 'OK' or got != exp:
             return True, 'array[%s, %s] on a %d-dimensional array: native library %s %s, NumPy gives %s' % (kind, items, d1, kind_, str(got)[:150], exp), payload
         return False, 'native library agrees (%s)' % str(got)[:80], payload
-    return mdischarge(nc.m, 'Content::getitem_next(%s) with %d items after it' % (kind, k), obls, tw, replay=replay, prefer=[dmin >= 2, dmax <= 5, dmax - dmin <= 1],
-                      extra=dict(bounds='%d integer items after the %s; min / max depth of the structure symbolic (1..50)' % (k, kind)))
+    return mdischarge(nc.m, 'Content::getitem_next(%s) followed by (%s)' % (kind, ', '.join(kinds)), obls, tw, replay=replay, prefer=[dmin >= 2, dmax <= 5, dmax - dmin <= 1],
+                      extra=dict(bounds='%d items after the %s (kinds concrete: case split); min / max depth of the structure symbolic (1..50)' % (k, kind)))
 
 
 def jobs_ellipsis(tier):
-    return [(h_ellipsis, (k, kind), 1800) for kind in ('ellipsis', 'newaxis') for k in ((0, 1, 2) if tier == 'quick' else (0, 1, 2, 3))]
+    tails = [0, 1, 2, ('array2',), ('range', 'array1'), ('at', 'newaxis', 'range')] if tier == 'quick' else \
+        [0, 1, 2, 3, ('array2',), ('array1',), ('range',), ('range', 'array1'), ('array2', 'at'), ('at', 'newaxis', 'range'), ('newaxis', 'array2', 'range'), ('range', 'range', 'at')]
+    return [(h_ellipsis, (k, kind), 1800) for kind in ('ellipsis', 'newaxis') for k in tails]
 
 
 # ------------------------------------------------------------------------------------------------ C08: reverse_merge (a non-indexed array followed by an indexed / option one)
@@ -2985,3 +3050,180 @@ def jobs_list_merge(tier):
     if tier != 'quick':
         q += [((LA, (1, 0, 2)), (LA, (2,)), (LO, (1, 1))), ((LO, (0,)), (RA, (3, 1)), (RA, (1, 2))), ((RA, (2, 2)), (LA, (0, 3)), (RA, (2, 1)))]
     return [(h_list_mergemany, (s,), 1800) for s in q]
+
+
+# ------------------------------------------------------------------------------------------------ C01: index arrays with missing values (SliceMissing64)
+@guard
+def h_missing(pattern, L, S):
+    """Content::getitem_next(SliceMissing64): an index array with None entries, applied to L rows.  The array part (already compacted: entry i of the
+    missing index is the position, within the S selected items of a row, that output column i shows, or negative for None) is applied first,
+    giving L rows of S items; the answer has L rows of len(pattern) columns: column i of row r is None where the index is negative and
+    otherwise item index[i] of row r of the selection - for every row, not only the first"""
+    pattern = tuple(bool(x) for x in pattern)
+    n = len(pattern)
+    nc = NodeCtx(['CNT', 'SLC', 'RA', 'IA', 'IDX', 'UTL', 'KD', 'IDS'], ['awkward_missing_repeat'], unwind=max(12, n * max(L, 1) + n + 10))
+    nc.m.assume(nc.lencontent == L)
+    # what applying the array part to the L rows returns: a RegularArray of L rows of S items over its own opaque content
+    BASE = 1 << 32
+    kk = z3.BitVec('k!', 64)
+    sel = nc.new_content_in(nc.m.mem, 'content_sel', BV(S * L), z3.Lambda([kk], kk + BASE), const=True)
+    saved = nc.content0, nc.lencontent
+    nc.content0, nc.lencontent = sel, BV(S * L)
+    try:
+        selected, rows = build_regular(nc, S, L, name='selected')
+    finally:
+        nc.content0, nc.lencontent = saved
+    calls = []
+
+    def s_getitem_next(eng, fr, ins, st, name, argv):
+        sret, selfp, head, tail, adv = argv
+        hp = st.mem.o[head.obj].cells.get(head.off)
+        calls.append((st.pc, _item_class(st.mem, hp[0]) if hp else ''))
+        nc._ret(st, sret, selected)
+        return None
+    nc.m.eng.stubs['vf$slot%d' % nc.slot('12getitem_nextERKSt10shared_ptrINS_9SliceItemEERKNS_5SliceERKNS_7IndexOfIlEE')] = s_getitem_next
+    fo, sz, al, fields = nc.layout_of('SLC', '_ZNK7awkward14SliceMissingOfIlE5indexEv')
+    a0 = z3.Array('missing_index', z3.BitVecSort(64), z3.BitVecSort(64))
+    idx = [z3.Select(a0, BV(i)) for i in range(n)]
+    for i, miss in enumerate(pattern):
+        nc.m.assume(idx[i] < 0 if miss else z3.And(idx[i] >= 0, idx[i] < S))
+    data = nc.m.array('missing_index', ('i', 64), max(1, n), const=True)
+    mdat = nc.m.array('missing_mask', ('i', 8), max(1, n), const=True)
+    inner = _slice_item(nc, 0, 'array1')
+    cells = {0: (nc.vptr_of('N7awkward14SliceMissingOfIlEE', 'SLC'), 8)}
+    nc.index_cells(cells, fo[1], data, BV(0), BV(n))
+    nc.index_cells(cells, fo[2], mdat, BV(0), BV(n))
+    cells[fo[3]] = (inner, 8); cells[fo[3] + 8] = (NULL, 8)
+    item = nc.m.record('missing', cells, const=True)
+    tail = _slice_object(nc, 'tail', [])
+    cells = {}
+    nc.index_cells(cells, 0, NULL, BV(0), BV(0))
+    cells[48] = (BV(1, 8), 1)
+    adv = nc.m.record('advanced', cells, const=True)
+    nc.m.record('ret', {})
+    out = nc.m.call('_ZNK7awkward7Content12getitem_nextERKNS_14SliceMissingOfIlEERKNS_5SliceERKNS_7IndexOfIlEE', [Ptr('ret', 0), nc.content0, item, tail, adv])
+    obls = [('an index array with None does not raise', out.raised), ('the array part is applied exactly once', z3.BoolVal(len(calls) != 1))]
+    want = [[NONE if miss else Elem(BV(r * S + BASE) + idx[i]) for i, miss in enumerate(pattern)] for r in range(L)]
+    res = decode(nc, out.mem, nc.m.cell('ret', 0))
+    got = value(res)
+    if L == 0:
+        # "if this is in a tuple-slice and really should be 0, it will be trimmed later": one all-None-or-garbage row is tolerated here
+        obls.append(('no more than the one placeholder row for an empty selection', z3.BoolVal(len(got) > 1)))
+    else:
+        obls += compare(got, want)
+
+    def replay(model, ent):
+        iv = [model.eval(x, model_completion=True).as_signed_long() for x in idx]
+        if L == 0:
+            return False, 'empty selection is not replayed', {}
+        # L rows of S + 1 items; the array part [S-1, ..., 0] selects S of them per row (reversed), the missing index picks among those
+        W = S + 1
+        arr = list(range(S - 1, -1, -1))
+        vals = list(range(L * W))
+        prog = 'i64 %s regular %d 0 getitem 2 range NONE NONE 1 missing %s array %s' % (fullnative.ints(vals), W, fullnative.ints(iv), fullnative.ints(arr))
+        exp = [[None if v < 0 else vals[r * W + arr[v]] for v in iv] for r in range(L)]
+        return akrun_check(prog, exp, 'array[:, %s] (None where negative, positions into the selection %s) on %d rows of %d' % (iv, arr, L, W))
+    return mdischarge(nc.m, 'Content::getitem_next(SliceMissing64) pattern=%s rows=%d selected=%d' % (''.join('N' if x else 'v' for x in pattern), L, S), obls, [], replay=replay,
+                      extra=dict(bounds='%d columns (None pattern concrete: case split, positions symbolic), %d rows, %d selected items per row' % (n, L, S)))
+
+
+def jobs_missing(tier):
+    q = [((0, 1, 0), 2, 2), ((1, 0), 3, 1), ((0, 0), 1, 3)] if tier == 'quick' else [((0, 1, 0), 3, 3), ((1, 1), 2, 2), ((0,), 3, 2), ((1, 0, 0, 1), 2, 2), ((0, 1), 0, 2)]
+    return [(h_missing, a, 1800) for a in q]
+
+
+# ------------------------------------------------------------------------------------------------ C01: a second index array (NumPy-style advanced indexing)
+@guard
+def h_getitem_next_array_advanced(cls, dims, nidx):
+    """x[rows, cols] (the second of two index arrays reaching a list node): `advanced` pairs list i with entry advanced[i] of the column array, so
+    the answer has one item per list: item (one negative wrap) cols[advanced[i]] of list i; raises exactly when one of those pairs is out of
+    range (stated for pairings that use every entry of `cols`, as broadcasting the index arrays together guarantees; an entry no list is
+    paired with may or may not be checked)"""
+    lens0 = dims
+    nc = NodeCtx(['LOA', 'LA', 'RA', 'IDX', 'CNT', 'UTL', 'KD', 'IDS', 'SLC'], [], unwind=max(10, 2 * len(node_lens(cls, dims)) + nidx + 8))
+    this, lists, starts, offs, short = list_node(nc, cls, lens0)
+    lens = node_lens(cls, lens0)
+    n = len(lens)
+    if n == 0:
+        raise Unsupported('no lists')
+    tail, _ = empty_tail_and_advanced(nc)
+    a1 = z3.Array('advdata', z3.BitVecSort(64), z3.BitVecSort(64))
+    av = [z3.Select(a1, BV(i)) for i in range(n)]
+    for a in av:
+        nc.m.assume(a >= 0, a < nidx)
+    advdata = nc.m.array('advdata', ('i', 64), n, const=True)
+    cells = {}
+    nc.index_cells(cells, 0, advdata, BV(0), BV(n))
+    adv = nc.m.record('advanced2', cells, const=True)
+    data = nc.m.array('slicedata', ('i', 64), nidx, const=True)
+    a0 = z3.Array('slicedata', z3.BitVecSort(64), z3.BitVecSort(64))
+    iv = [z3.Select(a0, BV(k)) for k in range(nidx)]
+    shape = nc.m.record('sliceshape', {0: (BV(nidx), 8)}, const=True)
+    strides = nc.m.record('slicestrides', {0: (BV(1), 8)}, const=True)
+    cells = {0: (nc.vptr_of('N7awkward12SliceArrayOfIlEE', 'SLC'), 8)}
+    nc.index_cells(cells, 8, data, BV(0), BV(nidx))
+    cells.update({64: (shape, 8), 72: (Ptr('sliceshape', 8), 8), 80: (Ptr('sliceshape', 8), 8),
+                  88: (strides, 8), 96: (Ptr('slicestrides', 8), 8), 104: (Ptr('slicestrides', 8), 8), 112: (BV(0, 8), 1)})
+    sl = nc.m.record('slicearray', cells, const=True)
+    nc.m.record('ret', {})
+    out = nc.m.call('_ZNK7awkward%s12getitem_nextERKNS_12SliceArrayOfIlEERKNS_5SliceERKNS_7IndexOfIlEE' % short, [Ptr('ret', 0), this, sl, tail, adv])
+
+    def pick(i):
+        v = iv[0]
+        for k in range(1, nidx):
+            v = z3.If(av[i] == k, iv[k], v)
+        return v
+    picked = [pick(i) for i in range(n)]
+    regs = [z3.If(p < 0, p + L, p) for p, L in zip(picked, lens)]
+    inr = z3.And([z3.And(r >= 0, r < L) for r, L in zip(regs, lens)])
+    onto = z3.And([z3.Or([a == k for a in av]) for k in range(nidx)])          # every column entry is paired with some list (always so when the arrays were broadcast together)
+    anyoor = z3.Or([z3.Not(z3.And(z3.If(v < 0, v + L, v) >= 0, z3.If(v < 0, v + L, v) < L)) for v in iv for L in lens])
+    obls = [('raises exactly when a paired index is out of range for its list (every entry paired)', z3.And(onto, z3.simplify(out.raised) != z3.Not(inr))),
+            ('a paired index out of range raises', z3.And(z3.Not(inr), z3.Not(out.raised))),
+            ('raises only if some entry is out of range for some list', z3.And(out.raised, z3.Not(anyoor)))]
+    okp = z3.And(inr, z3.Not(out.raised))
+    rp = nc.m.cell('ret', 0)
+    if rp is not None and any(q.obj is not None for g, q in nodeh.ptr_cases(rp)):
+        res = decode(nc, out.mem, rp)
+        got = value(res)
+        want = [Elem(starts[i] + regs[i]) for i in range(n)]
+        obls += [(nm, z3.And(okp, c)) for nm, c in compare(got, want)]
+
+    def replay(model, ent):
+        ev = lambda t: model.eval(t, model_completion=True).as_signed_long()
+        vals = [ev(v) for v in iv]
+        adv_ = [ev(a) for a in av]
+        lc = ev(nc.lencontent)
+        if lc > 200:
+            return False, 'content too long to replay', {}
+        head, inp = node_program(nc, model, lc)
+        # x[[0, 1, ..., n-1], cols'] with cols'[i] = cols[advanced[i]]: the row array makes advanced the identity, which is the same pairing
+        cols = [vals[a] for a in adv_]
+        prog = head + 'getitem 2 array %s array %s' % (fullnative.ints(range(n)), fullnative.ints(cols))
+        try:
+            exp = [inp[i][c] for i, c in enumerate(cols)]
+        except IndexError:
+            exp = None
+        kind, got = fullnative.akrun(prog)
+        payload = dict(program=prog, native=[kind, got], expected=exp, advanced=adv_, cols=vals)
+        if exp is None:
+            if kind != 'ERR':
+                return True, '%s lists %s [rows, %s]: an index is out of range, but the native library returns %s %s' % (cls, inp, cols, kind, got), payload
+            return False, 'native library raises, as NumPy does', payload
+        if kind != 'OK' or got != exp:
+            return True, '%s lists %s [%s, %s]: native library %s %s, NumPy gives %s' % (cls, inp, list(range(n)), cols, kind, str(got)[:150], exp), payload
+        return False, 'native library agrees (%s)' % got, payload
+    return mdischarge(nc.m, '%s::getitem_next(SliceArray64, advanced) shape=%s n=%d' % (cls, ','.join(map(str, dims)), nidx), obls, [('all in range', inr)] if min(lens) > 0 else [],
+                      replay=replay, prefer=[z3.And(v >= -6, v <= 6) for v in iv] + [nc.lencontent <= 24] + [o <= 20 for o in offs],
+                      extra=dict(bounds='list lengths %s, %d column entries (case split); column values any int64, pairing (advanced) symbolic; offsets origin symbolic' % (lens, nidx)))
+
+
+def jobs_advanced(tier):
+    shapes = [(2, 1), (3,)] if tier == 'quick' else [(2, 1), (3,), (1, 0, 2), (2, 2, 2)]
+    regs = [(2, 2)] if tier == 'quick' else [(2, 2), (3, 1), (1, 3)]
+    js = []
+    for cls in ('ListOffsetArray64', 'ListArray64', 'RegularArray'):
+        for lens in (regs if cls == 'RegularArray' else shapes):
+            for nidx in ((2,) if tier == 'quick' else (1, 2, 3)):
+                js.append((h_getitem_next_array_advanced, (cls, lens, nidx), 1800))
+    return js
